@@ -8,6 +8,9 @@ S3_MAX_PARTS = 10000
 S3_MIN_PART = 5 * MiB
 S3_MAX_PART = 5 * GiB
 
+# private-attribute groups (vlib/layout.py) the obligations of this module depend on
+LAYOUT = ['manager', 'coord', 'task', 'bex', 'tasksem', 'sws'] + ['legacy', 'pp']
+
 EXPLANATION = (
     'C14: the real planning kernels (ChunksizeAdjuster, calculate_num_parts, calculate_range_parameter and its two '
     'private duplicates, CopyObject _get_transfer_size) are executed symbolically by CrossHair at REAL scale '
@@ -193,12 +196,12 @@ def decision(front, size, thr, chunk):
 
 _SZ = '0 <= size <= 5 * 1024 ** 4'
 OBLIGATIONS = [
-    dict(id='C14.1', impl='adjust', params='c: int, size: int', cases=[(True,), (False,)],
+    dict(id='C14.1', groups=[], impl='adjust', params='c: int, size: int', cases=[(True,), (False,)],
          pre=[_SZ, '1 <= c <= 8 * 1024 ** 3'], timeout=(120, 600),
          bounds='size in [0, 5 TiB], configured chunk size in [1, 8 GiB], real constants; no other bound',
          encodes=['s3transfer.utils.ChunksizeAdjuster.adjust_chunksize', '_adjust_for_max_parts',
                   '_adjust_for_chunksize_limits'], assumptions=['S2 exact quotient (L1, L2)', 'S1 opaque formatting']),
-    dict(id='C14.2', impl='range_tiling', params='size: int, p: int, i: int',
+    dict(id='C14.2', groups=[], impl='range_tiling', params='size: int, p: int, i: int',
          cases=[('utils', False), ('utils', True), ('download', False), ('legacy', False)],
          pre=['1 <= size <= 5 * 1024 ** 4', '1 <= p <= 8 * 1024 ** 3', '0 <= i'], timeout=(120, 600),
          bounds='size in [1, 5 TiB], part size in [1, 8 GiB], part index symbolic (unbounded)',
@@ -206,10 +209,10 @@ OBLIGATIONS = [
                   's3transfer.download.DownloadSubmissionTask._calculate_range_param',
                   's3transfer.MultipartDownloader._calculate_range_param'],
          assumptions=['S2 exact quotient (L1, L2)', 'S1 placeholders decoded by parse_range']),
-    dict(id='C14.2a', impl='num_parts_exact', params='size: int, p: int',
+    dict(id='C14.2a', groups=[], impl='num_parts_exact', params='size: int, p: int',
          pre=['0 <= size <= 5 * 1024 ** 4', '1 <= p <= 8 * 1024 ** 3'], timeout=(60, 300),
          bounds='as C14.2', encodes=['s3transfer.utils.calculate_num_parts'], assumptions=['S2 (L1)']),
-    dict(id='C14.3', impl='copy_part_sizes', params='size: int, p: int, i: int',
+    dict(id='C14.3', groups=[], impl='copy_part_sizes', params='size: int, p: int, i: int',
          pre=['1 <= size <= 5 * 1024 ** 4', '1 <= p <= 8 * 1024 ** 3', '0 <= i'], timeout=(120, 600),
          bounds='as C14.2', encodes=['s3transfer.copies.CopySubmissionTask._get_transfer_size'],
          assumptions=['S2 (L1, L2)']),
@@ -229,7 +232,7 @@ OBLIGATIONS = [
          bounds='<= 3 parts of <= 8 KiB; size / threshold symbolic incl. equality; process pool with threshold = chunk',
          encodes=['DownloadSubmissionTask._submit', 'S3Transfer._download_file', 'GetObjectSubmitter._submit_get_object_jobs'],
          assumptions=['S1', 'S2']),
-    dict(id='C14.6', impl='constants', params='dummy: int', pre=['0 <= dummy <= 2 ** 52'], timeout=(30, 60),
+    dict(id='C14.6', groups=[], impl='constants', params='dummy: int', pre=['0 <= dummy <= 2 ** 52'], timeout=(30, 60),
          bounds='none', encodes=['s3transfer.utils constants'], assumptions=[]),
 ]
 
